@@ -115,7 +115,9 @@ type Handler func(http.ResponseWriter, *http.Request, Params)
 func addLeaf(t Tree, r *Route, s *Segment, h Handler) (Leaf, error) {
 	leaves := t.getLeaves()
 	for _, l := range leaves {
-		if l.getSegment().String() == s.String() {
+		// The optional mark ("?") is not part of the identity of a leaf, "/a/?b" and
+		// "/a/b" match the very same request path.
+		if strings.TrimLeft(l.getSegment().String(), "/?") == strings.TrimLeft(s.String(), "/?") {
 			return nil, errors.Errorf("duplicated route %q", r.String())
 		}
 	}
